@@ -116,8 +116,8 @@ def _column_tables(repo: Repo) -> Dict[str, List[str]]:
             if isinstance(s, ast.Expr) and isinstance(s.value, ast.Call) and norm(s.value.func).endswith(".update"):
                 consts = [n.value for n in ast.walk(s.value) if isinstance(n, ast.Constant) and isinstance(n.value, str) and n.value.endswith("_") and len(n.value) > 1]
                 seq.append(consts[0] if consts else "?")
-            elif isinstance(s, ast.AugAssign) and norm(s.target) == "colonnade":
-                seq.append("+")
+            elif isinstance(s, ast.AugAssign) and isinstance(s.target, ast.Name) and isinstance(s.op, ast.Add) and norm(s.value) == "1":
+                seq.append("+")  # the block counter advances
         return seq
 
     while isinstance(cur, ast.If):
@@ -233,7 +233,11 @@ def r3_3(repo: Repo) -> RuleResult:
     # window functions: (radius, frequencies, mask index, *extra)
     for c in [c for c in exported_estimators(repo) if base in repo.mro(c)]:
         setter = repo.resolve_method(c, "_set_window_len_array")
-        calls = [x for x in repo.calls_in(setter) if isinstance(x.func, ast.Name) and x.func.id == "win_fn"]
+        # the callee is the loop variable ranging over self._window_functions
+        fn_names = set()
+        for lp in [n for n in walk_no_nested(setter.node) if isinstance(n, ast.For) and "self._window_functions" in norm(n.iter)]:
+            fn_names |= {x.id for x in ast.walk(lp.target) if isinstance(x, ast.Name)}
+        calls = [x for x in repo.calls_in(setter) if isinstance(x.func, ast.Name) and x.func.id in fn_names]
         if len(calls) != 1:
             raise AnalysisError("R3.3: window function call not found in %s" % setter.key)
         args = [norm(a) for a in calls[0].args if not isinstance(a, ast.Starred)]
